@@ -185,8 +185,14 @@ func errClass(err error) string {
 	case strings.Contains(m, "field and tags"):
 		return "collision"
 	}
+	if len(otherErrors) < 8 {
+		otherErrors[m] = true
+	}
 	return "other"
 }
+
+// otherErrors keeps a few messages of errors that fall in no class (information for the evidence only).
+var otherErrors = map[string]bool{}
 
 // N is an AST node in the model's shape: 'L' literal, 'R' reference, 'U' unary, 'B' binary, 'F' call,
 // 'X' nested lambda.
